@@ -24,6 +24,8 @@ class ClassInfo(object):
       for key, (fname, fty) in self.dictlike.items():
         self.fields[fname] = parse_type(fty)
         self.fields['has_' + fname] = parse_type('bool')
+    self.listlike = d.get('listlike', None)   # python list used as a fixed record: field names by position
+    self.truthy_expr = d.get('truthy_expr', None)  # spec expression for bool(self) of an extern container-like class
     self.final = d.get('final', False)       # no subclasses: dynamic class tag is known for every reference of this type
 
 
@@ -43,7 +45,10 @@ class FuncSpec(object):
     self.loops = dict(d.get('loops', {}))
     self.yields = list(d.get('yields', ()))   # [{'at': '<source text of the yielding call>', 'assert': [...], 'havoc': [...], 'rely': [...]}]
     self.may_yield = d.get('may_yield', False)   # a call of this function is itself a scheduling point for its caller
-    self.conc = d.get('conc', None)               # name of the CONCURRENCY entry governing the receiver's shared state
+    self.conc = d.get('conc', None)
+    g = d.get('guar', None)
+    self.guar = ([self.conc] if self.conc else []) if g is None else list(g)   # CONCURRENCY entries this unit must establish
+    self.no_exit = d.get('no_exit', False)        # the function never returns normally (worker loop)               # name of the CONCURRENCY entry governing the receiver's shared state
     self.pure = d.get('pure', False)
     self.inline = d.get('inline', False)
     self.locals = dict((k, parse_type(v)) for k, v in d.get('locals', {}).items())
